@@ -147,8 +147,12 @@ def r04_2(ctx, run, rule='R04.2'):
                     table.setdefault((lk, rk), set()).add(o)
                     if (lk == 'S') != (rk == 'S') and o in ('Greater', 'Less'):
                         # which side's entry is tested for NULL?
-                        nt = [c for c in p.conds if 'type_code' in show(c[0])]
-                        isnull = any(c[1] == 'eq' and c[2] == 0 for c in nt)
+                        from pat import as_eq
+                        isnull = False
+                        for c in p.conds:
+                            q_ = as_eq(c)
+                            if q_ is not None and 'type_code' in show(q_[0]) and q_[1] == 0 and q_[2]:
+                                isnull = True
                         nullsplit.setdefault((lk, rk), {})[isnull] = o
             # argument order of the delegating calls
             rr = deref_all(p.ret)
